@@ -210,3 +210,34 @@ def atomic_check(prop):
 
 assume_doc("ATOMIC", "BOUNDED, not proved: that an exception leaving `async with self.db.begin()` restores the store is exercised for three histories x every "
            "statement index of the last event on SQLite as the relay configures it (in-process error injection; process kills and power loss are not exercised)")
+
+
+def script_check(prop, script, name, kind, rule, assumption=None, args=()):
+    """generic wrapper: run bounded/<script> --json OUT; every failure class it reports is a violation (no listed classes)"""
+
+    def check(tier, seed):
+        t0 = time.time()
+        outdir = os.path.join(os.environ.get("PYVC_OUT_DIR", ROOT), "replays")
+        os.makedirs(outdir, exist_ok=True)
+        out = os.path.join(outdir, "%s_%s.json" % (prop, name))
+        env = dict(os.environ)
+        env["PYTHONPATH"] = ROOT
+        p = subprocess.run([sys.executable, os.path.join(ROOT, "bounded", script), "--json", out] + list(args), capture_output=True, text=True, env=env, timeout=900)
+        if p.returncode != 0 or not os.path.exists(out):
+            raise RuntimeError("%s failed: %s" % (script, (p.stdout + p.stderr)[-1500:]))
+        r = json.load(open(out))
+        res = {"name": name, "kind": kind, "status": "ok", "evaluations": r["cases"], "distinct": r["cases"], "known_lines": [], "exhaustive": True,
+               "rule": rule, "samples": r.get("samples", [])[:3], "seconds": round(time.time() - t0, 1), "script": script}
+        if r["failure_classes"]:
+            res["status"] = "violation"
+            res["failures"] = [{"kind": c["kind"], "count": c["count"], "example": dict(c["example"], script=script) if isinstance(c["example"], dict) else c["example"]}
+                               for c in r["failure_classes"]]
+        return res
+
+    check.__name__ = "%s_%s" % (name.replace("-", "_"), prop)
+    return check
+
+
+assume_doc("STARTUP", "BOUNDED, not proved: three start-up orders (web.create_app, Config.load then get_storage, import web then load) in fresh interpreters "
+           "with max_limit = 3; other embeddings of the package are not exercised")
+assume_doc("PARSEOPT", "BOUNDED, not proved: every rate-limit option string of 1..3 items out of a 7-item alphabet, compared with an independent parser")
